@@ -160,6 +160,11 @@ func (n UnixFSHAMTShard) loadChild(pbLink dagpb.PBLink) (UnixFSHAMTShard, error)
 	if err != nil {
 		return nil, err
 	}
+	// all shards of one HAMT share the same fanout; link names of a child are
+	// padded and stripped using it
+	if und.data.FieldFanout().Must().Int() != n.data.FieldFanout().Must().Int() {
+		return nil, ErrFanoutMismatch
+	}
 	n.shardCache[pbLink.FieldHash().Link()] = und
 	return und, nil
 }
